@@ -72,16 +72,7 @@ func propC20(t *rapid.T, is64 bool) {
 	m := map[uint64]*big.Int{}
 	// stored map: duplicates, extremes, single column, empty
 	n := rapid.SampledFrom([]int{0, 1, 2, 3, 5, 8, 12}).Draw(t, "ncols")
-	// BSI32: comparisons / min-max across mixed signs are a KNOWN FINDING (bsi32-compare-mixed-signs):
-	// the generator keeps 32-bit query cases single-signed and counts what it avoided
-	signMode := 0 // 0 any, 1 non-negative, 2 negative
-	if !is64 {
-		signMode = rapid.IntRange(1, 2).Draw(t, "sign32")
-		if f.min >= 0 {
-			signMode = 1
-		}
-		inst.Count("C20", "avoided:known-finding bsi32-compare-mixed-signs (stored map kept single-signed)")
-	}
+	signMode := 0 // 0 any, 1 non-negative, 2 negative (both implementations are searched over the full domain)
 	var pool []int64
 	for i := 0; i < 4; i++ {
 		v := drawValue(t, "pool", f, signMode == 1)
@@ -269,21 +260,7 @@ func propC20(t *rapid.T, is64 bool) {
 				mx = v
 			}
 		}
-		// KNOWN FINDING bsi32-minmax-sentinel (KNOWN_FINDINGS.json): the 32-bit MinMax returns its start
-		// sentinel when every value in the found-set equals the sentinel's low bits (MAX: all zero;
-		// MIN: all equal to 2^BitCount-1). Exactly these two shapes are excluded, and counted.
 		skipMin, skipMax := false, false
-		if !is64 && mn.Cmp(mx) == 0 {
-			if mx.Sign() == 0 {
-				skipMax = true
-			}
-			if bc := x.BitCount(); bc < 64 && mn.Cmp(new(big.Int).Sub(new(big.Int).Lsh(big.NewInt(1), uint(bc)), big.NewInt(1))) == 0 {
-				skipMin = true
-			}
-		}
-		if skipMin || skipMax {
-			inst.Count("C20", "avoided:known-finding bsi32-minmax-sentinel")
-		}
 		if g := x.MinMax(workers, false, found, foundNil); !skipMin && g.Cmp(mn) != 0 {
 			fail("MinMax(MIN, workers=%d, found=%s%v) = %s, want %s", workers, fclass, found, g, mn)
 		}
@@ -301,7 +278,7 @@ func propC20(t *rapid.T, is64 bool) {
 				fits = false
 			}
 		}
-		if fits && (is64 || signMode == 1) {
+		if fits && (is64 || signMode != 2) {
 			g, cnt := x.Sum(found, foundNil)
 			if g.Cmp(sum) != 0 || cnt != uint64(len(found)) {
 				fail("Sum(found=%s%v) = (%s,%d), want (%s,%d)", fclass, found, g, cnt, sum, len(found))
